@@ -785,7 +785,25 @@ func Run(c *hx.Ctx) {
 	vr := r.verifyResults(bh)
 	c.Sample(map[string]interface{}{"probe": bh.Tag, "verifyToken results": vr, "second delegation at now=expire": r.stats["delegate:RTrue"] == 2})
 	c.Note(fmt.Sprintf("observation (not a violation): verifyToken accepts a delegation at now = expireTime (results at expire-1, expire, expire (after re-delegation with period 0), expire+1: %v) while getAuthToken treats it as ended at that second (a second delegation of the same role to the same identity was accepted at now = expire: %v); Model/Auth.v follows the code, Props/C41.v c41_boundary_now_equals_expire states it", vr, r.stats["delegate:RTrue"] == 2))
+	// an identity without any token record that holds the role through a running delegation is
+	// given the admin's token all the same: it keeps the role when the delegation expires / is withdrawn
+	for _, mode := range []string{"expire", "withdraw"} {
+		nh := noRecordHistory(mode)
+		r.runHistory(nh, true)
+		c.Sample(map[string]interface{}{"probe": nh.Tag, "verifyToken results": r.verifyResults(nh)})
+	}
 	c.Note("admin-assigned ('permanent') tokens expire at 2100-01-01 12:00 UTC (uint32 4102488000): verifyToken refuses them afterwards; histories with times after that instant are generated and the theorem carries the bound")
+
+	// the family "assignment to an identity without a token record during a running delegation":
+	// ended by expiry, by withdrawal, by expiry followed by withdrawal, in turn
+	for i, nf := 0, c.N(18, 180); i < nf; i++ {
+		stub := i%4 == 3
+		h := r.genNoRecordHistory(stub, i%3)
+		c.Count("history:family:assign-no-record-during-delegation")
+		if i == 0 {
+			c.Sample(map[string]interface{}{"history": h, "results": r.stats})
+		}
+	}
 
 	nh := c.N(120, 1500)
 	for i := 0; i < nh; i++ {
